@@ -28,6 +28,7 @@ RULE = ('One data file holds 1..3 planted sources, each from its own model (fit(
 RULE += (' ' + 'Also varied: per-model wavelength grids in per-file packages, documented file layouts (.gz, sub-directories, parameters.fits.gz), stored units.')
 RULE += (' ' + 'Cube packages: one band may be given to fit() as a wavelength, cube apertures in AU / pc / cm, a Fitter made before fit() (reversed filters) is used after it; one of the other models may have no flux at all.')
 RULE += (' ' + 'A third of the planted sources (>= 3 filters) carry lower / upper limits that the planted model satisfies by 0.3..1.5 dex.')
+RULE += (' ' + 'For packages with an even number of models the parameter listing is made twice and the second one examined.')
 ASSUMPTIONS = [
     'chi2[0] <= 1e-6 (+ float32 slack for cube packages, whose model fluxes fit() memory-maps as float32)',
     'A_V and scale within 1e-6*(1+|p|) plus the first-order float32 perturbation bound',
@@ -291,6 +292,12 @@ def run_case(case, ctx):
         listing = os.path.join(d, 'pars.txt')
         with must_succeed('write_parameters'), quiet():
             write_parameters(out, listing, select_format=tuple(case['selector']))
+        if len(names) % 2 == 0 or case.get('listed_twice'):
+            # the listing that is examined is the one of a second call in the same session (a listing made again after a look
+            # at the first one, or for another selection)
+            with must_succeed('write_parameters, called a second time on the same fit file'), quiet():
+                write_parameters(out, listing, select_format=tuple(case['selector']))
+            labels.add('listing_made_twice')
         lines = open(listing).read().split('\n')
         head = lines[1].split()
         body = [l.split() for l in lines[3:] if l.strip()]
